@@ -8,6 +8,7 @@ import MosnVerif.Lemmas.PoolWinWitness
 import MosnVerif.Lemmas.PoolMxWin  -- (mux6 section at the end of the file)
 import MosnVerif.Lemmas.GaugeFlags  -- (c10r7 section at the end of the file)
 import MosnVerif.Model.PoolPlace  -- (pool9 section at the end of the file)
+import MosnVerif.Lemmas.ResourceShareHist  -- (c10p10 section at the end of the file)
 /-!
 # C10 — circuit-breaker and active-gauge accounting is conserved (property theorems only)
 
@@ -813,4 +814,229 @@ example : (fun s : MosnVerif.Model.PoolMxWin.State => (s.led.reqCur, s.led.strea
     = (0, 0, 0) := by decide
 
 end Pool9
+
+/-! ## c10p10 — the ledger across CLUSTER UPDATES: which resource-manager OBJECT the current cluster uses
+
+`Model/ResourceShare.lean`: managers, cluster infos and hosts are OBJECTS with identity; a holder (request slot, retry slot,
+stream-proxy connection) gives its unit back through the object it remembers (a cluster info, or a host whose info pointer
+`InheritClusterHostsHandler` swings).  `UpdateCluster` builds a new info with a FRESH manager, runs the regenerated handler chain
+(`Gen.ResourceShare.primaryChain / andHostChain`, with `handler` = UpdateClusterResourceManagerHandler and `stores` =
+updateResourceValue interpreted statement by statement) and publishes.  The theorems are about `Code.gen` (the programs as they
+are in the source now) over EVERY history of admissions, releases and updates through either mutator, every threshold vector,
+every cluster-type change, any number of hosts; the negation witnesses are the same histories under edited programs. -/
+section Share10
+open MosnVerif.Model.ResourceShare MosnVerif.Gen.ResourceShare
+
+/-- **ledger_exact_across_updates**: after every history (no threshold moved between 0 and non-zero under a held unit — see
+`threshold_through_zero_leaks`), every cluster info ever built for the cluster and every host reach the manager the CURRENT
+cluster uses; on that manager every limited resource counts exactly the live holders (an unlimited one is not counted), the
+gauges count the live holders; with no live holder every counter and gauge is 0. -/
+theorem ledger_exact_across_updates (thr0 : Thr) (nh : Nat) (ops : List Op)
+    (hz : zeroStable Code.gen (init thr0 nh) ops = true) :
+    (∀ i, i < (run Code.gen (init thr0 nh) ops).nInfo →
+        (run Code.gen (init thr0 nh) ops).infoMgr i = (run Code.gen (init thr0 nh) ops).infoMgr (run Code.gen (init thr0 nh) ops).cur) ∧
+    (∀ h, h < (run Code.gen (init thr0 nh) ops).nHost →
+        mgrOf (run Code.gen (init thr0 nh) ops) (.host h) = (run Code.gen (init thr0 nh) ops).infoMgr (run Code.gen (init thr0 nh) ops).cur) ∧
+    (∀ r, (curMgr (run Code.gen (init thr0 nh) ops)).cur.get r =
+        if (curMgr (run Code.gen (init thr0 nh) ops)).max.get r = 0 then 0 else (count r (run Code.gen (init thr0 nh) ops).live : Int)) ∧
+    (∀ r, (run Code.gen (init thr0 nh) ops).gauge.get r = (count r (run Code.gen (init thr0 nh) ops).live : Int)) ∧
+    ((run Code.gen (init thr0 nh) ops).live = [] →
+        ∀ r, (curMgr (run Code.gen (init thr0 nh) ops)).cur.get r = 0 ∧ (run Code.gen (init thr0 nh) ops).gauge.get r = 0) := by
+  obtain ⟨hi, hl, hg⟩ := MosnVerif.Model.ResourceShare.reach (init thr0 nh) ops (inv_init _ _) (ledger_init _ _) (gauges_init _ _) hz
+  have hc := hi.im _ hi.cur
+  refine ⟨fun i h => by rw [hi.im i h, hc], fun h hh => by rw [mgrOf_valid hi (by simpa [validPath] using hh), hc], ?_, hg, ?_⟩
+  · intro r; rw [curMgr_eq hi]; exact hl r
+  · intro he r
+    have h1 := hl r; have h2 := hg r
+    rw [he] at h1 h2
+    rw [curMgr_eq hi]
+    refine ⟨?_, by simpa [count] using h2⟩
+    by_cases h0 : ((run Code.gen (init thr0 nh) ops).mgr 0).max.get r = 0 <;> simpa [h0, count] using h1
+
+/-- **thresholds_follow_last_update**: after an update the thresholds of the current manager are the ones of THAT update, and an
+admission through any existing object is refused exactly when the resource is limited and the live holders — admitted before or
+after the update — have reached the NEW threshold (the shared count). -/
+theorem thresholds_follow_last_update (thr0 : Thr) (nh : Nat) (ops : List Op) (p : Bool) (thr : Thr) (st : Bool) (n : Nat)
+    (hz : zeroStable Code.gen (init thr0 nh) (ops ++ [.update p thr st n]) = true) :
+    (curMgr (run Code.gen (init thr0 nh) (ops ++ [.update p thr st n]))).max = thr ∧
+    ∀ id r t pth, validPath (run Code.gen (init thr0 nh) (ops ++ [.update p thr st n])) t = true →
+      validPath (run Code.gen (init thr0 nh) (ops ++ [.update p thr st n])) pth = true →
+      ((acquire (run Code.gen (init thr0 nh) (ops ++ [.update p thr st n])) id r t pth).2 = false ↔
+        (0 < thr.get r ∧ thr.get r ≤ count r (run Code.gen (init thr0 nh) (ops ++ [.update p thr st n])).live)) := by
+  obtain ⟨hi, hl, _⟩ := MosnVerif.Model.ResourceShare.reach (init thr0 nh) _ (inv_init _ _) (ledger_init _ _) (gauges_init _ _) hz
+  have hm : (curMgr (run Code.gen (init thr0 nh) (ops ++ [.update p thr st n]))).max = thr := by
+    have hi0 := (reach_inv (init thr0 nh) ops (inv_init _ _) (gauges_init _ _)).1
+    rw [curMgr_eq hi]
+    have e : run Code.gen (init thr0 nh) (ops ++ [.update p thr st n]) = update Code.gen (run Code.gen (init thr0 nh) ops) p thr st n := by
+      simp only [run, List.foldl_append, List.foldl_cons, List.foldl_nil, step]
+    rw [e, update_gen_mgr0 _ _ _ _ _ hi0]
+  refine ⟨hm, ?_⟩
+  intro id r t pth ht hp
+  rw [admit_ref hi hl id r ht hp, ← curMgr_eq hi, hm]
+  simp only [refAdmits, countK_map, Bool.or_eq_false_iff, beq_eq_false_iff_ne, decide_eq_false_iff_not]
+  omega
+
+/-- **no_orphan_manager**: after every history (zero crossings included) no live holder will give its unit back to a manager other
+than the one the current cluster uses — whatever the cluster types of the updates were (the type guard is gone from the handler:
+fixed defect). -/
+theorem no_orphan_manager (thr0 : Thr) (nh : Nat) (ops : List Op) :
+    ∀ hd, hd ∈ (run Code.gen (init thr0 nh) ops).live →
+      mgrOf (run Code.gen (init thr0 nh) ops) hd.rel =
+        (run Code.gen (init thr0 nh) ops).infoMgr (run Code.gen (init thr0 nh) ops).cur := by
+  obtain ⟨hi, _⟩ := reach_inv (init thr0 nh) ops (inv_init _ _) (gauges_init _ _)
+  intro hd hm
+  rw [mgrOf_valid hi (hi.lv hd hm), hi.im _ hi.cur]
+
+/-- the type-change case as the code does it now: from every state of the invariant an update that CHANGES the cluster type keeps
+the manager object and its counters, and installs the new thresholds (same as a same-type update) -/
+theorem type_change_keeps_manager (s : State) (hi : Inv s) (p : Bool) (thr : Thr) (n : Nat) :
+    (update Code.gen s p thr false n).infoMgr (update Code.gen s p thr false n).cur = s.infoMgr s.cur ∧
+    curMgr (update Code.gen s p thr false n) = ⟨thr, (curMgr s).cur⟩ := by
+  have hi' := inv_update s p thr false n hi
+  refine ⟨by rw [hi'.im _ hi'.cur, hi.im _ hi.cur], ?_⟩
+  rw [curMgr_eq hi', curMgr_eq hi, update_gen_mgr0 _ _ _ _ _ hi]
+
+/-- the refinement theorem of the harness kind `rsh`: on every history of requests, retries, stream-proxy connections and updates
+of both clusters (zero-stable by name), the observations of the OBJECT model under the regenerated programs are those of the ledger
+BY NAME — i.e. the model always satisfies the predicate evaluated on the implementation's observations -/
+theorem spec_share_holds_on_model (thr0 : Thr) (ops : List SOp) (hz : (Ref.init thr0).zeroStable ops = true) :
+    Spec.holds thr0 ops (objTrace Code.gen (Hist.init thr0) ops) = true := by
+  simp [Spec.holds, trace_eq _ _ ops (rel_init thr0) hz]
+
+/-- every way into `UpdateCluster` runs the resource handler, before the publication: both mutators' chains contain it, the two
+mutators are the only callers of `UpdateCluster` under pkg/, the adapter's Trigger* (xDS, service discovery, admin) call them;
+the new cluster comes from `NewCluster` (fresh manager, counters 0), the old one from `clustersMap`, the chain gets (old, new) and
+runs before `clustersMap.Store`; inherited hosts are pointed at the new info, new hosts are built with it -/
+theorem update_paths_all_share :
+    primaryChain.contains .resource = true ∧ andHostChain.contains .resource = true ∧
+    updateCallers = ["pkg/upstream/cluster/cluster_manager.go:AddOrUpdateClusterAndHost",
+                     "pkg/upstream/cluster/cluster_manager.go:AddOrUpdatePrimaryCluster"] ∧
+    adapterAddOrUpdate = "AddOrUpdatePrimaryCluster" ∧ adapterAndHosts = "AddOrUpdateClusterAndHost" ∧
+    update_newFromNewCluster = true ∧ update_oldFromMap = true ∧ update_handlerArgsOldNew = true ∧
+    update_handlerBeforePublish = true ∧ update_publishesNew = true ∧
+    newInfo_freshManager = true ∧ freshManager_cursZero = true ∧
+    inherit_swingsHosts = true ∧ inherit_keepsHostSet = true ∧ newHosts_useOwnInfo = true ∧ host_infoIsMutableField = true := by
+  decide
+
+/-- the stats gauges (`UpstreamRequestActive`, `UpstreamConnectionActive`, cluster and host) are keyed by NAME in the metrics
+registry: a new cluster / host object of the same name gets the SAME counter — shared by construction, no hand-over needed -/
+theorem stats_gauges_shared_by_name :
+    stats_clusterByName = true ∧ stats_hostByName = true ∧ stats_lookupBeforeCreate = true ∧ stats_counterGetOrRegister = true := by
+  decide
+
+/-- through which object every breaker site reaches the manager (what `objMach` assumes): request slots through the pool's host
+(its CURRENT info), retry slots through the captured info, a stream-proxy connection is taken on the snapshot's info and given
+back through the host; no site uses anything else -/
+theorem release_paths_table :
+    sites.all (fun x => x.via != .other &&
+      (match x.res, x.op with
+       | .req, _ => x.via == .viaHost
+       | .retr, _ => x.via == .viaInfo
+       | .conn, .Decrease => x.via == .viaHost
+       | .conn, _ => x.via == .viaInfo
+       | .pend, _ => false)) = true := by
+  decide
+
+/-! ### negation witnesses (machine-checked): the same histories under edited programs -/
+
+/-- the handler gives the new cluster a manager of its own with the counters COPIED in (`UpdateCur`) instead of sharing -/
+def Code.copy : Code :=
+  { Code.gen with handler := [.skipIfNoOld, .read .new .new, .read .old .old,
+      .copyCur .new .conn .old .conn, .copyCur .new .pend .old .pend, .copyCur .new .req .old .req, .copyCur .new .retr .old .retr] }
+/-- the resource handler dropped from `AddOrUpdateClusterAndHost`'s chain -/
+def Code.dropped : Code := { Code.gen with andHost := [.cleanOld, .newHosts, .transfer] }
+/-- the handler as it was before the fix: nothing handed over when the cluster type differs -/
+def Code.typeGuard : Code :=
+  { Code.gen with handler := [.skipIfNoOld, .read .new .new, .read .old .old, .skipIfTypeDiffers, .alias .new .old, .update .old .new] }
+/-- `updateResourceValue` also resets the counters -/
+def Code.resetCur : Code :=
+  { Code.gen with stores := Code.gen.stores ++ [⟨.p0, .conn, .cur, .lit 0⟩, ⟨.p0, .pend, .cur, .lit 0⟩, ⟨.p0, .req, .cur, .lit 0⟩, ⟨.p0, .retr, .cur, .lit 0⟩] }
+
+def thr1 : Thr := ⟨1, 1, 1, 1⟩
+/-- one retry in flight, one update (same thresholds, same type), the retry ends -/
+def histShare : List Op := [.acquire 1 .retr (.info 0) (.info 0), .update true thr1 true 0, .release 1]
+
+/-- **copy_instead_of_share_leaks**: one in-flight retry, one update, release: the decrement lands on the OLD object, the current
+manager keeps `Retries().Cur() = 1` with nothing in flight — for ever (no sequence of further ends can lower it), and with
+`max_retries = 1` every later retry is refused; under the real programs the same history ends at 0 -/
+theorem copy_instead_of_share_leaks :
+    (curMgr (run Code.copy (init thr1 1) histShare)).cur.retr = 1 ∧ (run Code.copy (init thr1 1) histShare).live = [] ∧
+    (∀ ids : List Nat, (curMgr (run Code.copy (run Code.copy (init thr1 1) histShare) (ids.map .release))).cur.retr = 1) ∧
+    (acquire (run Code.copy (init thr1 1) histShare) 3 .retr (.info 1) (.info 1)).2 = false ∧
+    (curMgr (run Code.gen (init thr1 1) histShare)).cur.retr = 0 := by
+  refine ⟨by decide, by decide, ?_, by decide, by decide⟩
+  intro ids
+  have hl : (run Code.copy (init thr1 1) histShare).live = [] := by decide
+  have : ∀ (s : State), s.live = [] → run Code.copy s (ids.map .release) = s := by
+    induction ids with
+    | nil => intro s _; rfl
+    | cons a l ih =>
+      intro s hs
+      have e : step Code.copy s (.release a) = s := by simp [step, release, hs, findId]
+      simp only [List.map_cons, run, List.foldl_cons, e]
+      exact ih s hs
+  rw [this _ hl]; decide
+
+/-- **dropped_handler_splits_ledger**: without the resource handler in `AddOrUpdateClusterAndHost`'s chain the new cluster counts
+on a manager of its own: with `max_retries = 1`, a retry in flight from before the update and a retry of a request routed after it
+are BOTH admitted (the limit does not trip), and the current manager shows 1 with two in flight -/
+theorem dropped_handler_splits_ledger :
+    let s := run Code.dropped (init thr1 1) [.acquire 1 .retr (.info 0) (.info 0), .update false thr1 true 1, .acquire 3 .retr (.info 1) (.info 1)]
+    count .retr s.live = 2 ∧ (curMgr s).cur.retr = 1 ∧
+    count .retr (run Code.gen (init thr1 1) [.acquire 1 .retr (.info 0) (.info 0), .update false thr1 true 1, .acquire 3 .retr (.info 1) (.info 1)]).live = 1 := by
+  decide
+
+/-- **type_guard_orphans** (the defect that was fixed): with the type guard, a request in flight over an update that changes the
+cluster type gives its slot back through its host — pointed at the NEW info by InheritClusterHostsHandler — to the fresh manager:
+`Requests().Cur() = -1` with nothing in flight -/
+theorem type_guard_orphans :
+    let s := run Code.typeGuard (init thr1 1) [.acquire 0 .req (.host 0) (.host 0), .update true thr1 false 0, .release 0]
+    (curMgr s).cur.req = -1 ∧ s.live = [] ∧
+    (curMgr (run Code.gen (init thr1 1) [.acquire 0 .req (.host 0) (.host 0), .update true thr1 false 0, .release 0])).cur.req = 0 := by
+  decide
+
+/-- **reset_cur_goes_negative**: `updateResourceValue` resetting the counters: what was in flight is given back to a counter at 0 -/
+theorem reset_cur_goes_negative :
+    let s := run Code.resetCur (init thr1 1) [.acquire 0 .req (.host 0) (.host 0), .update true thr1 true 0, .release 0]
+    (curMgr s).cur.req = -1 ∧ s.live = [] := by
+  decide
+
+/-- **threshold_through_zero_leaks** (KNOWN FINDING, the real programs): `Increase / Decrease` are no-ops while `max = 0`, so an
+update that moves a threshold between 0 and non-zero under a held unit breaks the ledger.  (a) admitted unlimited (not counted),
+limited to 1 by an update, released: `Cur() = -1`.  (b) admitted at limit 1 (counted), lifted to 0, released (not decremented),
+limited to 1 again: `Cur() = 1` with nothing in flight and every later request refused. -/
+theorem threshold_through_zero_leaks :
+    (curMgr (run Code.gen (init ⟨0, 0, 0, 0⟩ 1) [.acquire 0 .req (.host 0) (.host 0), .update true thr1 true 0, .release 0])).cur.req = -1 ∧
+    (let s := run Code.gen (init thr1 1) [.acquire 0 .req (.host 0) (.host 0), .update true ⟨0, 0, 0, 0⟩ true 0, .release 0, .update true thr1 true 0]
+     (curMgr s).cur.req = 1 ∧ s.live = [] ∧ (acquire s 2 .req (.host 0) (.host 0)).2 = false) ∧
+    zeroStable Code.gen (init ⟨0, 0, 0, 0⟩ 1) [.acquire 0 .req (.host 0) (.host 0), .update true thr1 true 0, .release 0] = false := by
+  decide
+
+-- non-vacuity: a zero-stable history with units in flight over updates through both mutators, a type change and changed thresholds
+def histOk : List Op :=
+  [.acquire 0 .req (.host 0) (.host 0), .acquire 1 .retr (.info 0) (.info 0), .update true ⟨2, 0, 2, 1⟩ true 0,
+   .acquire 2 .req (.host 0) (.host 0), .update false ⟨1, 0, 1, 1⟩ false 1, .acquire 4 .req (.host 1) (.host 1), .release 0,
+   .acquire 9 .conn (.info 2) (.host 1), .release 1, .release 2, .release 9]
+example : zeroStable Code.gen (init thr1 1) histOk = true := by decide
+example : (curMgr (run Code.gen (init thr1 1) (histOk.take 6))).cur = ⟨0, 0, 2, 1⟩ ∧
+    (curMgr (run Code.gen (init thr1 1) (histOk.take 6))).max = ⟨1, 0, 1, 1⟩ ∧
+    (run Code.gen (init thr1 1) histOk).live = [] ∧ (curMgr (run Code.gen (init thr1 1) histOk)).cur = ⟨0, 0, 0, 0⟩ := by decide
+-- thresholds_follow_last_update: the request `4` above was refused at the NEW threshold 1 against the two admitted before the update
+example : (acquire (run Code.gen (init thr1 1) (histOk.take 5)) 4 .req (.host 1) (.host 1)).2 = false := by decide
+-- the histories of the harness: zero-stable by name, with a refusal at the new threshold, and the predicate is not trivially true
+def shist : List SOp := [.start 0, .retry 0, .update true 0 ⟨1, 0, 2, 1⟩, .start 1, .update false 1 ⟨1, 0, 1, 1⟩, .start 2, .open_ 0,
+  .retry 1, .fin 0, .fin 1, .close 0]
+example : (Ref.init thr1).zeroStable shist = true := by decide
+example : (refTrace (Ref.init thr1) shist).map (·.out) = [.a, .r, .u, .a, .u, .o, .a, .v, .e, .n, .e] := by decide
+example : Spec.holds thr1 [.start 0, .retry 0, .update true 0 thr1, .fin 0]
+    (objTrace Code.copy (Hist.init thr1) [.start 0, .retry 0, .update true 0 thr1, .fin 0]) = false := by decide
+-- (a request slot alone is masked under `AddOrUpdatePrimaryCluster`: the inherited host is pointed at the new info, the decrement
+-- follows the copy; through `AddOrUpdateClusterAndHost` the pool keeps the old host object and the copy stays for ever)
+example : Spec.holds thr1 [.start 0, .update true 0 thr1, .fin 0]
+    (objTrace Code.copy (Hist.init thr1) [.start 0, .update true 0 thr1, .fin 0]) = true ∧
+    Spec.holds thr1 [.start 0, .update false 0 thr1, .fin 0]
+    (objTrace Code.copy (Hist.init thr1) [.start 0, .update false 0 thr1, .fin 0]) = false := by decide
+example : Inv (init thr1 1) := inv_init _ _
+end Share10
+
 end MosnVerif.Props.C10
